@@ -1,9 +1,390 @@
-//! stub
-use super::Ctx;
-use crate::engine::evidence::{Case, Report, Verdict};
-pub fn run(_ctx: &Ctx, _rep: &mut Report) {
-    crate::engine::monitor::machinery_fail("not implemented");
+//! C04 - validated ranking yields 0 exactly for non-hands, for any 32-bit words.
+//!
+//! Spaces
+//!   quick:    the per-word recogniser on all 2^32 words (through `CardNumber::filter` and through the validity of a
+//!             two-slot hand whose other slot is fixed); all arrangements of sizes 2..7 over a 12-word alphabet
+//!             (7 real cards >= hand size, so every equality pattern and every relative order occurs; blank; four
+//!             near-miss words); the duplicate family (every size, every slot pair, every card) and every card
+//!             in every slot of an otherwise valid hand
+//!   thorough: additionally every size x every slot x all 2^32 words in that slot of an otherwise valid hand
+//!             (27 sweeps), all arrangements over a 16-word alphabet, both build profiles
+//! Oracle: valid <=> all slots are layout words and pairwise distinct; validated value = 0 <=> not valid, else the
+//! unvalidated value and the rule-derived best-of-n ordinal.
+use super::hands::AnyHand;
+use super::{confirm_mismatch, oracle, sample_json, Ctx};
+use crate::engine::enumerate::{par_parts, tuple_decode};
+use crate::engine::evidence::{Acc, Case, Report, Verdict};
+use crate::engine::monitor::{self, guard};
+use crate::oracle::cards::{deck, is_card_word, show_words, word_to_card, Card};
+use ckc_rs::CardNumber;
+use std::time::Instant;
+
+const PAIR_FLAG: u32 = 1 << 29;
+
+fn valid_model(w: &[u32]) -> bool {
+    w.iter().all(|x| is_card_word(*x)) && (0..w.len()).all(|i| (0..i).all(|j| w[i] != w[j]))
 }
-pub fn judge(_case: &Case) -> Verdict {
-    Verdict::NotJudged("not implemented".into())
+fn best_model(w: &[u32]) -> u16 {
+    let cards: Vec<Card> = w.iter().map(|x| word_to_card(*x).unwrap()).collect();
+    oracle().best_by_rules(&cards)
+}
+
+/// Case kinds: "filter" (one word), "<size>.<is_valid|is_corrupt|contain_blank|are_unique|hand_rank_value_validated|hand_rank_validated.value>",
+/// "evaluate.five_cards".
+pub fn judge(case: &Case) -> Verdict {
+    let w = case.w32s();
+    if case.kind == "filter" {
+        if w.len() != 1 {
+            return Verdict::NotJudged("filter takes one word".into());
+        }
+        let exp = if is_card_word(w[0]) { w[0] } else { 0 };
+        return match guard(|| (CardNumber::filter(w[0]), <u32 as ckc_rs::PokerCard>::filter(w[0]))) {
+            Err(p) => Verdict::Violated { class: "panic:filter".into(), expected: format!("{:#x}", exp), observed: format!("panic: {}", p) },
+            Ok((a, b)) if a != exp || b != exp => Verdict::Violated {
+                class: if exp == 0 { "filter-accepts-non-card".into() } else { "filter-rejects-card".into() },
+                expected: format!("{:#x} for word {:#x}", exp, w[0]),
+                observed: format!("CardNumber::filter {:#x}, PokerCard::filter {:#x}", a, b),
+            },
+            Ok(_) => Verdict::Holds,
+        };
+    }
+    if case.kind == "evaluate.five_cards" {
+        if w.len() != 5 {
+            return Verdict::NotJudged("five words".into());
+        }
+        let valid = valid_model(&w);
+        let exp = if valid { best_model(&w) } else { 0 };
+        return match guard(|| ckc_rs::evaluate::five_cards([w[0], w[1], w[2], w[3], w[4]])) {
+            Err(p) => Verdict::Violated { class: "panic:evaluate.five_cards".into(), expected: format!("{}", exp), observed: format!("panic: {}", p) },
+            Ok(v) if v != exp => Verdict::Violated { class: format!("evaluate.five_cards:{}", if valid { "wrong-value-on-valid-hand" } else { "nonzero-on-invalid-hand" }), expected: format!("{} for {}", exp, show_words(&w)), observed: format!("{}", v) },
+            Ok(_) => Verdict::Holds,
+        };
+    }
+    let (size, what) = match case.kind.split_once('.') {
+        Some(x) => x,
+        None => return Verdict::NotJudged("bad kind".into()),
+    };
+    let n = match AnyHand::size_of_name(size) {
+        Some(n) if n == w.len() => n,
+        _ => return Verdict::NotJudged("size/word count mismatch".into()),
+    };
+    let valid = valid_model(&w);
+    let all_cards = w.iter().all(|x| is_card_word(*x));
+    let h = AnyHand::from_words(&w);
+    let shown = show_words(&w);
+    let boolean = |name: &str, exp: bool, f: &dyn Fn() -> bool| -> Verdict {
+        match guard(f) {
+            Err(p) => Verdict::Violated { class: format!("panic:{}", case.kind), expected: format!("{}", exp), observed: format!("panic: {}", p) },
+            Ok(b) if b != exp => Verdict::Violated { class: format!("{}.{}:reported-{}", size, name, b), expected: format!("{} = {} for [{}]", name, exp, shown), observed: format!("{}", b) },
+            Ok(_) => Verdict::Holds,
+        }
+    };
+    match what {
+        "is_valid" => boolean("is_valid", valid, &|| h.is_valid()),
+        "is_corrupt" => boolean("is_corrupt", !all_cards, &|| h.is_corrupt()),
+        "contain_blank" => boolean("contain_blank", w.contains(&0), &|| h.contain_blank()),
+        "are_unique" => {
+            if !all_cards {
+                return Verdict::NotJudged("are_unique is only determined by the statement on hands of real cards".into());
+            }
+            boolean("are_unique", valid, &|| h.are_unique())
+        }
+        "hand_rank_value_validated" | "hand_rank_validated.value" => {
+            if n < 5 {
+                return Verdict::NotJudged("no ranking below five slots".into());
+            }
+            let exp = if valid { best_model(&w) } else { 0 };
+            match guard(|| h.rank_entry(what)) {
+                Err(p) => Verdict::Violated { class: format!("panic:{}", case.kind), expected: format!("{}", exp), observed: format!("panic: {}", p) },
+                Ok(Some(v)) if v != exp => {
+                    Verdict::Violated { class: format!("{}:{}", case.kind, if valid { "wrong-value-on-valid-hand" } else { "nonzero-on-invalid-hand" }), expected: format!("{} for [{}]", exp, shown), observed: format!("{}", v) }
+                }
+                Ok(Some(v)) if valid => match guard(|| h.value()) {
+                    Ok(Some(u)) if u == v => Verdict::Holds,
+                    other => Verdict::Violated { class: format!("{}:differs-from-unvalidated", case.kind), expected: format!("unvalidated ranking gives the same {}", v), observed: format!("{:?}", other) },
+                },
+                Ok(_) => Verdict::Holds,
+            }
+        }
+        _ => Verdict::NotJudged(format!("unknown observation {}", what)),
+    }
+}
+
+/// Checks one whole hand (fast path); on any discrepancy re-judges every observation through `judge`.
+#[inline]
+fn check_hand(acc: &mut Acc, w: &[u32], with_rank: bool) {
+    let n = w.len();
+    let all_cards = w.iter().all(|x| is_card_word(*x));
+    let mut uniq = true;
+    for i in 1..n {
+        for j in 0..i {
+            if w[i] == w[j] {
+                uniq = false;
+            }
+        }
+    }
+    let valid = all_cards && uniq;
+    let r = guard(|| {
+        let h = AnyHand::from_words(w);
+        let mut bad = h.is_valid() != valid || h.is_corrupt() == all_cards || h.contain_blank() != w.contains(&0);
+        if all_cards {
+            bad |= h.are_unique() != valid;
+        }
+        let mut calls = 4;
+        if with_rank && n >= 5 {
+            let v = h.value_validated().unwrap();
+            calls += 2;
+            let v2 = h.rank_entry("hand_rank_validated.value").unwrap();
+            if valid {
+                let exp = best_model(w);
+                bad |= v != exp || v2 != exp || h.value().unwrap() != exp;
+                calls += 1;
+            } else {
+                bad |= v != 0 || v2 != 0;
+            }
+            if n == 5 {
+                bad |= ckc_rs::evaluate::five_cards([w[0], w[1], w[2], w[3], w[4]]) != v;
+                calls += 1;
+            }
+        }
+        (bad, calls)
+    });
+    acc.cases += 1;
+    if valid {
+        acc.hist[0] += 1;
+    } else {
+        acc.hist[1] += 1;
+        if all_cards {
+            acc.hist[2] += 1; // invalid only because of a duplicate
+        }
+    }
+    match r {
+        Ok((false, c)) => acc.calls += c,
+        _ => {
+            let size = AnyHand::size_name(n);
+            let mut found = false;
+            let mut kinds: Vec<String> = ["is_valid", "is_corrupt", "contain_blank", "are_unique"].iter().map(|k| format!("{}.{}", size, k)).collect();
+            if with_rank && n >= 5 {
+                kinds.push(format!("{}.hand_rank_value_validated", size));
+                kinds.push(format!("{}.hand_rank_validated.value", size));
+                if n == 5 {
+                    kinds.push("evaluate.five_cards".into());
+                }
+            }
+            for k in kinds {
+                if let Some(v) = super::confirm(judge, Case::w32(&k, w)) {
+                    found = true;
+                    acc.violate(v);
+                }
+            }
+            if !found {
+                monitor::machinery_fail(&format!("C04 fast path mismatch on {:?} not reproduced by the judge", w));
+            }
+        }
+    }
+}
+
+fn alphabet(thorough: bool, seed: u64) -> Vec<u32> {
+    let d = deck();
+    // 7 real cards spread over suits and ranks (rotated by the seed), then blank and near-miss words
+    let rot = (seed % 52) as usize;
+    let picks = [0usize, 1, 13, 26, 39, 51, 30];
+    let mut al: Vec<u32> = picks.iter().map(|i| d[(i + rot) % 52].word()).collect();
+    let a = al[0];
+    al.extend_from_slice(&[0, a ^ 1, a | PAIR_FLAG, u32::MAX, 23]);
+    if thorough {
+        // two suit bits, rank bit of another rank, 1, top bit
+        al.extend_from_slice(&[a | 0x4000 | 0x8000 | 0x1000, a ^ (1 << 16) ^ (1 << 17), 1, 0x8000_0000]);
+    }
+    al
+}
+
+pub fn run(ctx: &Ctx, rep: &mut Report) {
+    let d = deck();
+    let thorough = ctx.tier.thorough();
+
+    // (1) per-word recogniser, all 2^32 words
+    {
+        let t0 = Instant::now();
+        let kind = monitor::kind_id("filter");
+        let ace = d[0].word();
+        let accs = par_parts(256, |p| {
+            let mut acc = Acc::new(3);
+            let lo = (p as u64) << 24;
+            monitor::beat(kind, &[lo]);
+            let mut cards = 0u64;
+            let mut bad_first: Option<u32> = None;
+            let mut nbad = 0u64;
+            let r = guard(|| {
+                for x in lo..lo + (1 << 24) {
+                    let w = x as u32;
+                    let is = is_card_word(w);
+                    cards += is as u64;
+                    let f = CardNumber::filter(w);
+                    let v = AnyHand::from_words(&[w, ace]).is_valid();
+                    if f != if is { w } else { 0 } || v != (is && w != ace) {
+                        nbad += 1;
+                        if bad_first.is_none() {
+                            bad_first = Some(w);
+                        }
+                    }
+                }
+            });
+            acc.cases += 1 << 24;
+            acc.calls += 2 << 24;
+            acc.nontrivial += cards;
+            acc.hist[0] += cards;
+            if r.is_err() || nbad > 0 {
+                // slow path over the block, exact attribution
+                let mut stored = 0;
+                for x in lo..lo + (1 << 24) {
+                    let w = x as u32;
+                    for (k, ws) in [("filter", vec![w]), ("two.is_valid", vec![w, ace])] {
+                        if stored < 8 {
+                            if let Some(v) = super::confirm(judge, Case::w32(k, &ws)) {
+                                acc.violate(v);
+                                stored += 1;
+                            }
+                        }
+                    }
+                }
+                if stored == 0 {
+                    monitor::machinery_fail("C04 recogniser mismatch not reproduced");
+                }
+                acc.viol_count = acc.viol_count.max(nbad);
+            }
+            acc
+        });
+        let acc = Acc::merged(accs);
+        rep.guard("recogniser sweep met exactly 52 card words", acc.hist[0] == 52, format!("{}", acc.hist[0]));
+        rep.add_space("2^32 words: filter + validity of [w, A♠]", &acc, t0, "every 32-bit word through the card recogniser and as the free slot of a two-slot hand");
+    }
+
+    // (2) all arrangements over the alphabet
+    let al = alphabet(thorough, ctx.seed);
+    let kind = monitor::kind_id("arrangement");
+    for n in 2..=7usize {
+        let t0 = Instant::now();
+        let total = (al.len() as u64).pow(n as u32);
+        let nparts = 64.min(total as usize);
+        let accs = par_parts(nparts, |p| {
+            let mut acc = Acc::new(3);
+            let lo = total * p as u64 / nparts as u64;
+            let hi = total * (p as u64 + 1) / nparts as u64;
+            let mut idx = vec![0usize; n];
+            let mut w = vec![0u32; n];
+            for t in lo..hi {
+                tuple_decode(t, al.len() as u64, &mut idx);
+                for i in 0..n {
+                    w[i] = al[idx[i]];
+                }
+                if t % 4096 == 0 {
+                    let w64: Vec<u64> = w.iter().map(|x| *x as u64).collect();
+                    monitor::beat(kind, &w64);
+                }
+                check_hand(&mut acc, &w, true);
+            }
+            acc
+        });
+        let mut acc = Acc::merged(accs);
+        acc.nontrivial = acc.hist[0] + acc.hist[2]; // valid hands and hands that are invalid only by a duplicate
+        rep.hist_add(&format!("arrangements_n{}:valid", n), acc.hist[0]);
+        rep.hist_add(&format!("arrangements_n{}:invalid", n), acc.hist[1]);
+        rep.hist_add(&format!("arrangements_n{}:invalid_only_by_duplicate", n), acc.hist[2]);
+        rep.guard(&format!("arrangements n={}: both valid and invalid hands explored", n), acc.hist[0] > 0 && acc.hist[2] > 0 && acc.hist[1] > acc.hist[2], format!("{:?}", &acc.hist));
+        if n == 7 {
+            let w: Vec<u32> = al[..7].to_vec();
+            rep.sample(sample_json("seven.hand_rank_value_validated", &show_words(&w), &format!("{:?}", AnyHand::from_words(&w).value_validated())));
+            let mut w2 = w.clone();
+            w2[6] = w2[2];
+            rep.sample(sample_json("seven.hand_rank_value_validated (duplicate in slots 3 and 7)", &show_words(&w2), &format!("{:?}", AnyHand::from_words(&w2).value_validated())));
+        }
+        rep.add_space(&format!("all {}^{} arrangements, size {}", al.len(), n, n), &acc, t0, "every arrangement of the alphabet: every equality pattern, every relative order, blanks and near-miss words in every slot");
+    }
+
+    // (3) duplicate family and every card in every slot
+    {
+        let t0 = Instant::now();
+        let mut acc = Acc::new(3);
+        let rot = (ctx.seed as usize) % 52;
+        for n in 2..=7usize {
+            for i in 0..n {
+                for j in i + 1..n {
+                    for c in 0..52usize {
+                        // fillers: distinct cards different from c
+                        let mut w = vec![0u32; n];
+                        let mut f = rot;
+                        for (s, slot) in w.iter_mut().enumerate() {
+                            if s == i || s == j {
+                                *slot = d[c].word();
+                            } else {
+                                while f % 52 == c {
+                                    f += 1;
+                                }
+                                *slot = d[f % 52].word();
+                                f += 1;
+                                while f % 52 == c {
+                                    f += 1;
+                                }
+                            }
+                        }
+                        check_hand(&mut acc, &w, true);
+                    }
+                }
+                for c in 0..52usize {
+                    let mut w = vec![0u32; n];
+                    let mut f = rot;
+                    for (s, slot) in w.iter_mut().enumerate() {
+                        if s == i {
+                            *slot = d[c].word();
+                        } else {
+                            while f % 52 == c {
+                                f += 1;
+                            }
+                            *slot = d[f % 52].word();
+                            f += 1;
+                        }
+                    }
+                    check_hand(&mut acc, &w, true);
+                }
+            }
+        }
+        acc.nontrivial = acc.cases;
+        rep.guard("duplicate family: valid and duplicate-only-invalid hands both present", acc.hist[0] > 0 && acc.hist[2] > 0, format!("{:?}", acc.hist));
+        rep.add_space("duplicate family + every card in every slot", &acc, t0, "every size, every slot pair holding the same card (each of the 52), remaining slots distinct cards; every card in every slot of an otherwise valid hand");
+    }
+
+    // (4) thorough: every slot x all 2^32 words
+    if thorough {
+        let kind = monitor::kind_id("one-free-slot");
+        for n in 2..=7usize {
+            for slot in 0..n {
+                let t0 = Instant::now();
+                let base: Vec<u32> = (0..n).map(|s| d[(s * 9 + 3 + ctx.seed as usize) % 52].word()).collect();
+                let accs = par_parts(1024, |p| {
+                    let mut acc = Acc::new(3);
+                    let lo = (p as u64) << 22;
+                    let mut w = base.clone();
+                    monitor::beat(kind, &[n as u64, slot as u64, lo]);
+                    for x in lo..lo + (1 << 22) {
+                        w[slot] = x as u32;
+                        check_hand(&mut acc, &w, true);
+                    }
+                    acc
+                });
+                let mut acc = Acc::merged(accs);
+                acc.nontrivial = acc.hist[0] + acc.hist[2];
+                rep.guard(&format!("free slot {} of {}: exactly 52-{} valid completions and {} duplicate ones", slot, n, n - 1, n - 1), acc.hist[0] == (52 - (n as u64 - 1)) && acc.hist[2] == n as u64 - 1, format!("{:?}", acc.hist));
+                rep.add_space(&format!("size {} slot {} x all 2^32 words", n, slot), &acc, t0, "one slot takes every 32-bit value, the other slots hold distinct real cards");
+            }
+        }
+    }
+    rep.rule = "distinct hands (word arrays) of sizes 2..7; non-trivial = valid hands plus hands that are invalid only because of a duplicate (the cases the uniqueness tests must separate); for the recogniser sweep the 52 words that must be accepted".into();
+    rep.bound = if thorough {
+        "one free slot x all 2^32 words (every size, every slot) + all arrangements over a 16-word alphabet; simultaneous arbitrary words in two or more slots beyond the alphabet are outside".into()
+    } else {
+        "2^32 words through the recogniser and one free slot of Two; all arrangements over a 12-word alphabet for sizes 2..7; the duplicate family".into()
+    };
+    rep.assume("are_unique is judged only on hands of real cards (where the statement determines it); is_corrupt / contain_blank are judged by their documented definitions");
+    let _ = oracle();
 }
